@@ -133,12 +133,13 @@ CHECKS = {
         "overlapping mode lists; sub-solvers exposing Pin(base, mode)) through connect_all and compares with the model's solve of the "
         "multi-mode netlist AND with independent per-mode solves and zero cross-mode coefficients; runs the queries on models, results, "
         "structures and placed sub-solvers."
-        " The expansion stream includes blocks that refill one persistent buffer (CWA, FPR). Nested solvers and queries also use mode-major pin layouts (a_TE, b_TE, a_TM, b_TM). The expansion stream covers EVERY library block (constructors of the C04 table; found F31). Query cases use base names containing underscores (in_1, port_a1, o_1_2) and query their prefixes too. Half of the placed-structure query cases first lose all pins of one base name (a neighbour wired by connect_all is removed). A user waveguide declared without modes is expanded like any other block.",
+        " The expansion stream includes blocks that refill one persistent buffer (CWA, FPR). Nested solvers and queries also use mode-major pin layouts (a_TE, b_TE, a_TM, b_TM). The expansion stream covers EVERY library block (constructors of the C04 table; found F31). Query cases use base names containing underscores (in_1, port_a1, o_1_2) and query their prefixes too. Half of the placed-structure query cases first lose all pins of one base name (a neighbour wired by connect_all is removed). A user waveguide declared without modes is expanded like any other block."
+        " On every run harness/translate_modes.py translates the CURRENT source of Model.expand_mode, Model._expand_S, diag_blocks, Solver.connect_all and the four mode queries to Gallina and coq/templates/ModesSrcProof.v proves: the new pin dictionary is ((p, mode_i), i*N + n), the block-diagonal matrix equals Modes.expand_S at every index below np*N for every N, np, S, the links are exactly connect_all_links, the queries are pin_modes / pin_basenames (5 theorems, closed).",
    note="Trusted: Coq kernel + vm_compute; Bignums primitives for the executed instance; model Modes.v tied by sampled correspondence; "
         "harness. The circuit-level statement is proved for circuits whose blocks all carry the same mode list (every link replicated per "
         "mode); partially overlapping mode lists are covered by the per-mode comparison in Coq (tie), not by a theorem. Follows the fixed code (F17, F18). Expansion of an "
         "already solved model raises and is outside the model.",
-   technique="Coq proof (index/block-diagonal algebra, wave-level independence per block, list lemmas) + vm_compute correspondence", design="§5 C13"),
+   technique="Coq proof (index/block-diagonal algebra, wave-level independence per block, list lemmas) + source-to-Gallina translation of expand_mode / _expand_S / diag_blocks / connect_all / mode queries proved equal to Modes.v on every run + vm_compute correspondence", design="§5 C13, §3.3"),
  "C14": dict(
    text="Proof: props/C14.v. For every pin set (with or without modes), every index assignment, every matrix and every sweep point "
         "(first and last included) the loaded model has exactly the exported pins, each once, and holds between p and q the stored and "
